@@ -79,7 +79,7 @@ type Sched struct {
 }
 
 func New(n int) *Sched {
-	s := &Sched{events: make(chan event, n), StallFor: 10 * time.Second}
+	s := &Sched{events: make(chan event, n), StallFor: 60 * time.Second}
 	for i := 0; i < n; i++ {
 		s.workers = append(s.workers, &Worker{ID: i, grant: make(chan grantMsg, 1), s: s})
 		s.alive = append(s.alive, true)
